@@ -13,7 +13,7 @@
   Over ℝ.
 -/
 import KiraModel.Proofs.IdleLemmas
-import KiraModel.Model.System
+import KiraModel.Proofs.SystemLemmas
 
 set_option linter.unusedSectionVars false
 
@@ -294,6 +294,22 @@ theorem Renderer.specChunks_mapComps (hC : C.LenPres) (ch : Nat) (ns : List Nat)
     rw [i1]
     exact ⟨rfl, i2⟩
 
+/-- **a sequence of `Renderer::process` calls commutes with the component map** -/
+theorem Renderer.runCallbacks_mapComps (hC : C.LenPres) (hC' : C'.LenPres) (ch : Nat) (cbs : List Nat)
+    (r : Renderer ℝ S E P X) (hr : r.Clean) (hS : Comps.SimOn C C' fs fe IS IE r.ibs r.dt)
+    (hc : Mixer.CompsOk IS IE r.mixer) (hr' : (Renderer.mapComps fs fe r).Clean) :
+    Renderer.runCallbacks C' V ch (Renderer.mapComps fs fe r) cbs
+        = (Renderer.mapComps fs fe (Renderer.runCallbacks C V ch r cbs).1, (Renderer.runCallbacks C V ch r cbs).2)
+      ∧ Mixer.CompsOk IS IE (Renderer.runCallbacks C V ch r cbs).1.mixer := by
+  have hibs : (Renderer.mapComps fs fe r).ibs = r.ibs := rfl
+  rw [(Renderer.runCallbacks_spec_clean C V hC ch cbs r hr).1,
+    (Renderer.runCallbacks_spec_clean C' V hC' ch cbs _ hr').1, hibs]
+  refine Renderer.specChunks_mapComps C C' V fs fe hC ch _ r hS hc ?_
+  intro n hn
+  simp only [callbackChunks, List.mem_flatMap] at hn
+  obtain ⟨f, _, hf⟩ := hn
+  exact (chunkSizes_bound f r.ibs f n hf).1
+
 end
 
 /-! ### the structural invariants survive the component map -/
@@ -301,24 +317,6 @@ end
 section
 variable {S E P X : Type}
 variable (fs : S → S) (fe : E → E)
-
-theorem Trk.mapComps_clean (k : Nat) (t : Trk ℝ S E P) : Trk.Clean k t → Trk.Clean k (Trk.mapComps fs fe t) := by
-  refine Trk.rec (motive_1 := fun t => Trk.Clean k t → Trk.Clean k (Trk.mapComps fs fe t))
-    (motive_2 := fun ts => Trk.CleanList k ts → Trk.CleanList k (Trk.mapCompsList fs fe ts)) ?_ ?_ ?_ t
-  · intro d c p ihc ihp h; rw [Trk.mapComps]; exact ⟨h.1, ihc h.2.1, ihp h.2.2⟩
-  · intro _; simp [Trk.mapCompsList, Trk.CleanList]
-  · intro t ts iht ihts h; rw [Trk.mapCompsList]; exact ⟨iht h.1, ihts h.2⟩
-
-theorem Trk.mapCompsList_clean (k : Nat) (ts : List (Trk ℝ S E P)) (h : Trk.CleanList k ts) :
-    Trk.CleanList k (Trk.mapCompsList fs fe ts) := by
-  induction ts with
-  | nil => simp [Trk.mapCompsList, Trk.CleanList]
-  | cons t ts ih => rw [Trk.mapCompsList]; exact ⟨Trk.mapComps_clean fs fe k t h.1, ih h.2⟩
-
-theorem Mixer.mapComps_clean (k : Nat) (m : Mixer ℝ S E P) (h : Mixer.Clean k m) : Mixer.Clean k (Mixer.mapComps fs fe m) :=
-  ⟨h.temp, h.main, Trk.mapCompsList_clean fs fe k _ h.subs, Trk.mapCompsList_clean fs fe k _ h.pending,
-    by intro s hs; simp only [Mixer.mapComps, List.mem_map] at hs; obtain ⟨s0, hs0, rfl⟩ := hs; exact h.sends s0 hs0,
-    by intro s hs; simp only [Mixer.mapComps, List.mem_map] at hs; obtain ⟨s0, hs0, rfl⟩ := hs; exact h.pendingSends s0 hs0⟩
 
 theorem Trk.mapComps_settled (t : Trk ℝ S E P) : Trk.Settled t → Trk.Settled (Trk.mapComps fs fe t) := by
   refine Trk.rec (motive_1 := fun t => Trk.Settled t → Trk.Settled (Trk.mapComps fs fe t))
@@ -338,7 +336,7 @@ theorem Mixer.mapComps_settled (m : Mixer ℝ S E P) (h : Mixer.Settled m) : Mix
     by intro s hs; simp only [Mixer.mapComps, List.mem_map] at hs; obtain ⟨s0, hs0, rfl⟩ := hs; exact h.sends s0 hs0⟩
 
 theorem Renderer.mapComps_quiet (r : Renderer ℝ S E P X) (h : r.Quiet) : (Renderer.mapComps fs fe r).Quiet :=
-  ⟨⟨h.1.1, Mixer.mapComps_clean fs fe r.ibs r.mixer h.1.2⟩, Mixer.mapComps_settled fs fe r.mixer h.2⟩
+  ⟨⟨h.1.1, Mixer.mapComps_clean r.ibs fs fe r.mixer h.1.2⟩, Mixer.mapComps_settled fs fe r.mixer h.2⟩
 
 theorem Trk.mapComps_idle (t : Trk ℝ S E P) : Trk.Idle t → Trk.Idle (Trk.mapComps fs fe t) := by
   refine Trk.rec (motive_1 := fun t => Trk.Idle t → Trk.Idle (Trk.mapComps fs fe t))
@@ -420,6 +418,53 @@ theorem Mixer.resize_compsOk {IS : S → Prop} {IE : E → Prop} (k : Nat) (m : 
   obtain ⟨s0, hs0, rfl⟩ := hs
   exact h.sends s0 hs0
 
+/-- the component map commutes with resizing the scratch buffers -/
+theorem Trk.mapComps_resize (k : Nat) (t : Trk ℝ S E P) :
+    Trk.mapComps fs fe (Trk.resize k t) = Trk.resize k (Trk.mapComps fs fe t) := by
+  refine Trk.rec (motive_1 := fun t => Trk.mapComps fs fe (Trk.resize k t) = Trk.resize k (Trk.mapComps fs fe t))
+    (motive_2 := fun ts => Trk.mapCompsList fs fe (Trk.resizeList k ts) = Trk.resizeList k (Trk.mapCompsList fs fe ts))
+    ?_ ?_ ?_ t
+  · intro d c p ihc ihp; rw [Trk.resize, Trk.mapComps, Trk.mapComps, Trk.resize, ihc, ihp]
+  · simp [Trk.mapCompsList, Trk.resizeList]
+  · intro t ts iht ihts; rw [Trk.resizeList, Trk.mapCompsList, Trk.mapCompsList, Trk.resizeList, iht, ihts]
+
+theorem Trk.mapCompsList_resize (k : Nat) (ts : List (Trk ℝ S E P)) :
+    Trk.mapCompsList fs fe (Trk.resizeList k ts) = Trk.resizeList k (Trk.mapCompsList fs fe ts) := by
+  induction ts with
+  | nil => simp [Trk.mapCompsList, Trk.resizeList]
+  | cons t ts ih => rw [Trk.resizeList, Trk.mapCompsList, Trk.mapCompsList, Trk.resizeList, Trk.mapComps_resize, ih]
+
+theorem Renderer.mapComps_resize (k : Nat) (r : Renderer ℝ S E P X) :
+    Renderer.mapComps fs fe (Renderer.resize k r) = Renderer.resize k (Renderer.mapComps fs fe r) := by
+  simp [Renderer.mapComps, Renderer.resize, Mixer.mapComps, Mixer.resize, Trk.mapCompsList_resize, SendTrk.resize,
+    Function.comp_def]
+
+/-- two component maps compose -/
+theorem Trk.mapComps_mapComps (fs2 : S → S) (fe2 : E → E) (t : Trk ℝ S E P) :
+    Trk.mapComps fs fe (Trk.mapComps fs2 fe2 t) = Trk.mapComps (fun s => fs (fs2 s)) (fun e => fe (fe2 e)) t := by
+  refine Trk.rec
+    (motive_1 := fun t => Trk.mapComps fs fe (Trk.mapComps fs2 fe2 t)
+      = Trk.mapComps (fun s => fs (fs2 s)) (fun e => fe (fe2 e)) t)
+    (motive_2 := fun ts => Trk.mapCompsList fs fe (Trk.mapCompsList fs2 fe2 ts)
+      = Trk.mapCompsList (fun s => fs (fs2 s)) (fun e => fe (fe2 e)) ts) ?_ ?_ ?_ t
+  · intro d c p ihc ihp
+    rw [Trk.mapComps, Trk.mapComps, Trk.mapComps, ihc, ihp]
+    simp [List.map_map, Function.comp_def]
+  · simp [Trk.mapCompsList]
+  · intro t ts iht ihts; rw [Trk.mapCompsList, Trk.mapCompsList, Trk.mapCompsList, iht, ihts]
+
+theorem Trk.mapCompsList_mapCompsList (fs2 : S → S) (fe2 : E → E) (ts : List (Trk ℝ S E P)) :
+    Trk.mapCompsList fs fe (Trk.mapCompsList fs2 fe2 ts)
+      = Trk.mapCompsList (fun s => fs (fs2 s)) (fun e => fe (fe2 e)) ts := by
+  induction ts with
+  | nil => simp [Trk.mapCompsList]
+  | cons t ts ih => rw [Trk.mapCompsList, Trk.mapCompsList, Trk.mapCompsList, Trk.mapComps_mapComps, ih]
+
+theorem Renderer.mapComps_mapComps (fs2 : S → S) (fe2 : E → E) (r : Renderer ℝ S E P X) :
+    Renderer.mapComps fs fe (Renderer.mapComps fs2 fe2 r)
+      = Renderer.mapComps (fun s => fs (fs2 s)) (fun e => fe (fe2 e)) r := by
+  simp [Renderer.mapComps, Mixer.mapComps, Trk.mapCompsList_mapCompsList, List.map_map, Function.comp_def]
+
 /-- mapping with the identity changes nothing -/
 theorem Trk.mapComps_id (t : Trk ℝ S E P) : Trk.mapComps (fun s => s) (fun e => e) t = t := by
   refine Trk.rec (motive_1 := fun t => Trk.mapComps (fun s => s) (fun e => e) t = t)
@@ -437,4 +482,43 @@ theorem Renderer.mapComps_id (r : Renderer ℝ S E P X) : Renderer.mapComps (fun
   simp [Renderer.mapComps, Mixer.mapComps, Trk.mapCompsList_id]
 
 end
+/-! ### partition and buffer-size invariance of a sequence of `Renderer::process` calls, invariant-relative -/
+
+section
+variable {S E P X : Type} (C : Comps ℝ S E P) (V : EnvOps ℝ X)
+
+/-- see `C11_render_partition_invariant_on` (Props/C11.lean) for the statement in words -/
+theorem Renderer.runCallbacks_partition_on {IS IS2 : S → Prop} {IE IE2 : E → Prop} {IX : X → Prop}
+    (hC : C.LenPres) (hV : V.StaticOn IX)
+    (r : Renderer ℝ S E P X) (hibs : 1 ≤ r.ibs) (k : Nat) (hk : 1 ≤ k)
+    (hH : C.ChunkHomOn IS IE r.ibs r.dt) (hq : r.QuietOn IS IE IX r.ibs r.dt)
+    (fs : S → S) (fe : E → E) (hH2 : C.ChunkHomOn IS2 IE2 k r.dt)
+    (hfs : ∀ s, IS s → IS2 (fs s)) (hfe : ∀ e, IE e → IE2 (fe e))
+    (hsim : Comps.SimOn C C fs fe IS IE 1 r.dt)
+    (ch : Nat) (cbs1 cbs2 : List Nat) (hsum : cbs1.sum = cbs2.sum) :
+    (Renderer.runCallbacks C V ch (Renderer.resize k (Renderer.mapComps fs fe r)) cbs2).2
+        = (Renderer.runCallbacks C V ch r cbs1).2
+      ∧ (Renderer.runCallbacks C V ch (Renderer.resize k (Renderer.mapComps fs fe r)) cbs2).1
+          = Renderer.resize k (Renderer.mapComps fs fe (Renderer.runCallbacks C V ch r cbs1).1) := by
+  have hq2 : (Renderer.resize k (Renderer.mapComps fs fe r)).QuietOn IS2 IE2 IX k r.dt :=
+    ⟨Renderer.resize_quiet k _ (Renderer.mapComps_quiet fs fe r hq.quiet),
+      Mixer.resize_compsOk k _ (Mixer.mapComps_compsOk fs fe hfs hfe r.mixer hq.comps), hq.env, Nat.le_refl _, rfl⟩
+  have hibs' : (Renderer.resize k (Renderer.mapComps fs fe r)).ibs = k := rfl
+  -- both runs are chunk loops; both chunk lists reduce to single-frame chunks
+  rw [(Renderer.runCallbacks_spec_clean C V hC ch cbs1 r hq.quiet.1).1,
+    (Renderer.runCallbacks_spec_clean C V hC ch cbs2 _ hq2.quiet.1).1, hibs']
+  rw [Renderer.specChunks_ones_on C V hC hH hV ch _ r hq (callbackChunks_bound r.ibs hibs cbs1),
+    Renderer.specChunks_ones_on C V hC hH2 hV ch _ _ hq2 (by rw [hibs']; exact callbackChunks_bound k hk cbs2),
+    callbackChunks_sum r.ibs hibs, callbackChunks_sum k hk, hsum]
+  -- the same single-frame chunks on the two capacities, then on the mapped components
+  rw [Renderer.specChunks_resize C V hC k ch _ (Renderer.mapComps fs fe r)
+    ⟨hq.quiet.1.1, Mixer.mapComps_clean r.ibs fs fe r.mixer hq.quiet.1.2⟩
+    (fun n hn => by rw [List.eq_of_mem_replicate hn]; exact ⟨hibs, hk⟩)]
+  obtain ⟨h1, _⟩ := Renderer.specChunks_mapComps C C V fs fe hC ch (List.replicate cbs2.sum 1) r hsim hq.comps
+    (fun n hn => by rw [List.eq_of_mem_replicate hn])
+  rw [h1]
+  exact ⟨rfl, rfl⟩
+
+end
+
 end K
